@@ -8,3 +8,4 @@ import AmVerif.Props.C12
 import AmVerif.Props.C04
 import AmVerif.Props.C11
 import AmVerif.Props.C05
+import AmVerif.Props.C17
